@@ -9,15 +9,17 @@
   odd ids); `snapOf` uses the kind.  The real dump has no kind tag to read and calls a node a dummy iff the bucket
   table refers to it: `tabSnapOf`.  The two differ between the CAS that links a new dummy node and the store that
   publishes it (`iPub`): there `tabSnapOf` shows an even split-order key with `isDummy = 0`, which is not well-formed.
-  They coincide whenever every linked dummy node is published (`Published`, `tabSnapOf_eq`).  That `Published` holds
-  in every QUIESCENT reachable state is NOT derived: the invariant of the machine has no clause "a linked dummy is
-  published or its `init_bucket` is at `iPub`".
+  They coincide whenever every linked dummy node is published (`Published`, `tabSnapOf_eq`), and that is the case in
+  every reachable state in which no thread is at the publishing store `iPub` (`published_of_noPub`, from the inductive
+  invariants `PubOk` / `BOk` of `Algo/SplitList/Publish.lean`), in particular in every quiescent state.
 
   Two small inductive invariants are added here (`KeyOk`, by case analysis of `step`): every split-order key ever
   stored is 0 or a value of `regular_hash` / `dummy_hash` (so it fits the 64-bit word when these do, `Word64`), and the
   user key of a dummy node is 0 (so two linked dummies never share a split-order key).
 -/
 import CdsVerif.Algo.SplitList.Reach
+import CdsVerif.Algo.SplitList.Publish
+import CdsVerif.Algo.SplitList.Count
 import CdsVerif.Algo.SplitList.Cfg64
 import CdsVerif.Props.C18
 namespace CdsVerif.Algo.SplitList
@@ -272,5 +274,27 @@ theorem SInvL.snap_wf {c : Cfg} {s : St} {L : List Nat} (h : SInvL c s L) (hc : 
   unfold snapOf
   rw [hl]
   simp [snapNode, hso]
+
+/-! ### The bucket table refers to exactly the linked dummy nodes, outside the publication windows -/
+
+/-- No thread is between the CAS that links a dummy node and the store that publishes it. -/
+def NoPub (s : St) : Prop := ∀ t, pcPub (s.pc t) = none
+
+theorem noPub_of_idle {s : St} (h : ∀ t, s.pc t = .idle) : NoPub s := by
+  intro t; rw [h t]; rfl
+
+theorem published_of_noPub {c : Cfg} {s : St} {L : List Nat} (hl : SInvL c s L) (hP : PubOk s L)
+    (hT : ∀ b d, s.table b = some d → b < 2 ^ s.cnt2) (hn : NoPub s) : Published s := by
+  intro a ha
+  rw [hl.absNodes_eq] at ha
+  unfold inTable
+  rw [List.any_eq_true]
+  constructor
+  · rintro ⟨b, -, hb⟩
+    exact (hl.g.tab b a (by simpa using hb)).2.1
+  · intro hev
+    rcases hP a ha hev with ⟨b, hb⟩ | ⟨t, ht⟩
+    · exact ⟨b, List.mem_range.2 (hT b a hb), by simp [hb]⟩
+    · rw [hn t] at ht; cases ht
 
 end CdsVerif.Algo.SplitList
